@@ -104,6 +104,12 @@ def check_send(run, F, fn, kind):
                         okh = k_ok and v_ok and flows
                         why = "header call: key from entry key=%s, value from entry value=%s, result reaches the send=%s" % (k_ok, v_ok, flows)
         run.ob("R-CONFIG-LIVE", "%s: every configured header is set on the request" % short, okh, why, site(b), key="R-CONFIG-LIVE|%s|headers" % fn)
+        for f in hfor:
+            for bp in f[3]["paths"]:
+                n_set = sum(1 for t2, _c in all_calls(bp) if t2[1] == header_name)
+                run.ob("R-CONFIG-LIVE", "%s: the header loop sets the header on every iteration" % short, n_set == 1 and bp.kind in ("fall",),
+                       "an iteration of the loop over the configured headers makes %d header call(s) and ends by `%s` under [%s]: some configured headers are skipped or altered" % (
+                           n_set, bp.kind, " && ".join(cshow(c) for c in bp.conds)[-160:]), site(b), key="R-CONFIG-LIVE|%s|header-loop-unconditional" % fn)
         # (d) content type
         cts = [x for x in subterms(recv) if is_call(x, header_name) and x[2][1][0] == "lit" and str(x[2][1][1]).lower() == "content-type"]
         run.ob("R-HTTPSHAPE", "%s: Content-Type application/ipp" % short, len(cts) >= 1 and all(x[2][2] == ("lit", "application/ipp") for x in cts),
@@ -322,6 +328,16 @@ def check_config_writers(run, F, rule="R-CONFIG-LIVE"):
         r = paths_of(nb)[0].ret
         ok = r[0] == "ctor" and isinstance(r[2], dict) and r[2].get("uri") == ("var", "uri")
         run.ob(rule, "IppClientBuilder::new stores the target uri as given", ok, tshow(r)[:120], site(nb), key="%s|new|uri" % rule)
+        if r[0] == "ctor" and isinstance(r[2], dict):
+            f = r[2]
+            empty = lambda t: is_call(t) and t[1].split("::")[-1] in ("new", "default") and not t[2]
+            neutral = {"ignore_tls_errors": f.get("ignore_tls_errors") == ("lit", False),
+                       "request_timeout": isinstance(f.get("request_timeout"), tuple) and f["request_timeout"][0] == "ctor" and f["request_timeout"][1].endswith("::None"),
+                       "headers": empty(f.get("headers")), "ca_certs": empty(f.get("ca_certs"))}
+            for fld, good in neutral.items():
+                run.ob(rule, "IppClientBuilder::new starts with a neutral `%s`" % fld, good,
+                       "a new builder already carries %s = %s: every request of every client is sent with it although the caller configured nothing" % (fld, tshow(f.get(fld))[:80]),
+                       site(nb), key="%s|new|%s" % (rule, fld))
     for acc in ("ipp::client::non_blocking::AsyncIppClient::uri", "ipp::client::blocking::IppClient::uri"):
         ab = F.body(acc)
         if ab is not None:
@@ -361,8 +377,7 @@ def check(run, views, tier):
             # "a body that decodes to exactly the request and its payload bytes": the request stream and the payload bridge (C08)
             include(run, c08, {cfg: {"ipp": F}}, tier)
             from .c12 import check_statics
-            include(run, c14, {cfg: {"ipp": F}}, tier, "path-term", "authority-term", "output-shape", "not-pass-through", "explicit-port-altered", "http_scheme",
-                    "unrecognised-port-test", "maps-configured-uri")
+            include(run, c14, {cfg: {"ipp": F}}, tier, "!default_port")
             check_statics(run, F)
             # "a connection cut before the end of the attributes yields an error": the reader/parser error discipline of C07
             from .. import readerrules as rr
